@@ -28,7 +28,13 @@ def load(prop):
         m = json.loads(meta.read_text())
         if prop in m.get("detected_by", []):
             seeded.append(dict(id=f"seeded-{m['id']}", patch=str(meta.parent / "patch.diff")))
-    return own + [dict(v, id=f"generic-{v['id']}") for v in GENERIC if prop in v["props"]] + seeded
+    # behaviour-preserving rewrites written by independent sub-agents: every check that consults the rewritten files must stay silent
+    equiv = []
+    for meta in sorted((VERIF / "seeded_equiv").glob("*/meta.json")):
+        m = json.loads(meta.read_text())
+        if prop in m.get("props_checked", []):
+            equiv.append(dict(id=f"equiv-{m['id']}", patch=str(meta.parent / "patch.diff"), expect="silent"))
+    return own + [dict(v, id=f"generic-{v['id']}") for v in GENERIC if prop in v["props"]] + seeded + equiv
 
 
 def run_variant(prop, var):
